@@ -82,10 +82,42 @@ Definition x_wrap (buf : list Z) (size asize : nat) : xstr :=
     mkX (xwrite (xresize buf (size + 1)) size [0%Z]) size (size + 1)
   else mkX (xwrite buf size [0%Z]) size asize.
 
+(* iwxstr_set_size: grows the buffer when needed, sets size, writes NO terminator *)
+Definition x_set_size (x : xstr) (n : nat) : xstr :=
+  let x1 := x_ensure x (n + 1) in mkX (x_mem x1) n (x_asize x1).
+
+(* the caller writes bs at offset off through iwxstr_ptr (what iwxstr_set_size is for: fill the buffer, then set the size) *)
+Definition x_poke (x : xstr) (off : nat) (bs : list Z) : xstr := mkX (xwrite (x_mem x) off bs) (x_size x) (x_asize x).
+
+(* the zero-initialised struct `struct iwxstr xstr = { 0 }` iwxstr_printf_alloc starts from: ptr NULL, size 0, asize 0; the
+   first iwxstr_cat grows it to exactly the need (asize <<= 1 stays 0, then asize = nsize) *)
+Definition x_zero : xstr := mkX [] 0 0.
+(* iwxstr_printf_alloc(fmt, ...) with the formatted text bs: the buffer handed to the caller *)
+Definition x_printf_alloc (bs : list Z) : xstr := x_cat x_zero bs.
+(* iwxstr_new_printf: iwxstr_create_empty() then iwxstr_printf_va *)
+Definition x_new_printf (bs : list Z) : xstr := x_cat (x_create AUNIT) bs.
+(* iwxstr_printf_va / iwxstr_insert_vaprintf format into char buf[1024] and go to the heap when the text does not fit
+   (len >= sizeof(buf)); true = the malloc'ed buffer was used (and is freed before returning) *)
+Definition x_fmt_heap (len : nat) : bool := (1024 <=? len).
+
+(* ---------------------------------------------------------------- user data: iwxstr_user_data_set / get / detach, and the
+   destructor call of iwxstr_destroy / iwxstr_destroy_keep_ptr.  Data are tokens; the log holds the destructor calls. *)
+Record xud := mkXU { xu_data : option nat; xu_fn : bool; xu_log : list (option nat) }.
+Definition xu_new : xud := mkXU None false [].
+Definition xu_set (u : xud) (d : option nat) (fn : bool) : xud :=
+  mkXU d fn (if xu_fn u then xu_log u ++ [xu_data u] else xu_log u).
+Definition xu_get (u : xud) : option nat := xu_data u.
+Definition xu_detach (u : xud) : xud * option nat := (mkXU (xu_data u) false (xu_log u), xu_data u).
+Definition xu_destroy (u : xud) : list (option nat) := if xu_fn u then xu_log u ++ [xu_data u] else xu_log u.
+Inductive xuop := XUSet (d : option nat) (fn : bool) | XUGet | XUDetach.
+Definition xu_step (u : xud) (op : xuop) : xud :=
+  match op with XUSet d fn => xu_set u d fn | XUGet => u | XUDetach => fst (xu_detach u) end.
+Definition xu_exec (u : xud) (ops : list xuop) : xud := fold_left xu_step ops u.
+
 (* ---------------------------------------------------------------- call sequences *)
 Inductive xop :=
   | XCat (b : list Z) | XUnshift (b : list Z) | XShift (n : nat) | XPop (n : nat)
-  | XInsert (pos : nat) (b : list Z) | XClear | XClone.
+  | XInsert (pos : nat) (b : list Z) | XClear | XClone | XSetSize (n : nat).
 
 (* observation after every call: return code, size, data, terminator byte; for clone: the clone's data/terminator *)
 Definition xobs := (xrc * nat * list Z * Z)%type.
@@ -100,22 +132,39 @@ Definition x_step (x : xstr) (op : xop) : xstr * xobs :=
   | XInsert p b => let '(x', rc) := x_insert x p b in ob x' rc
   | XClear => ob (x_clear x) X_OK
   | XClone => let c := x_clone x in (x, (X_OK, x_size c, x_data c, x_term c))
+  | XSetSize n => ob (x_set_size x n) X_OK
   end.
 
-(* reference: a plain byte string *)
-Definition s_step (s : list Z) (op : xop) : list Z * xobs :=
-  let ob (s' : list Z) (rc : xrc) := (s', (rc, length s', s', 0%Z)) in
+(* reference: a plain byte string s plus the byte t that sits where the terminator belongs (0 after every call except
+   iwxstr_set_size, which writes none: after shrinking to n the byte there is the old data byte n, or the old terminator
+   when n = size; iwxstr_insert moves that byte along; the calls that do nothing - shift 0, pop 0, insert of nothing or out of
+   bounds - leave it).  Growing by set_size exposes bytes nobody wrote: the reference does not say what they are (sz_ok). *)
+Definition tstate := (list Z * Z)%type.
+Definition s_step (st : tstate) (op : xop) : tstate * xobs :=
+  let '(s, t) := st in
+  let ob (s' : list Z) (t' : Z) (rc : xrc) := ((s', t'), (rc, length s', s', t')) in
   match op with
-  | XCat b => ob (s ++ b) X_OK
-  | XUnshift b => ob (b ++ s) X_OK
-  | XShift n => ob (skipn n s) X_OK
-  | XPop n => ob (firstn (length s - n) s) X_OK
-  | XInsert p b => if (length s <? p) then ob s X_OOB else ob (firstn p s ++ b ++ skipn p s) X_OK
-  | XClear => ob [] X_OK
-  | XClone => ob s X_OK
+  | XCat b => ob (s ++ b) 0%Z X_OK
+  | XUnshift b => ob (b ++ s) 0%Z X_OK
+  | XShift n => if Nat.eqb n 0 then ob s t X_OK else ob (skipn n s) 0%Z X_OK
+  | XPop n => if Nat.eqb n 0 then ob s t X_OK else ob (firstn (length s - n) s) 0%Z X_OK
+  | XInsert p b => if (length s <? p) then ob s t X_OOB else ob (firstn p s ++ b ++ skipn p s) t X_OK
+  | XClear => ob [] 0%Z X_OK
+  | XClone => (st, (X_OK, length s, s, 0%Z))
+  | XSetSize n => ob (firstn n s) (nth n (s ++ [t]) 0%Z) X_OK
   end.
+
+(* no iwxstr_set_size beyond the current size *)
+Fixpoint sz_ok (st : tstate) (ops : list xop) : Prop :=
+  match ops with
+  | [] => True
+  | op :: t => (match op with XSetSize n => n <= length (fst st) | _ => True end) /\ sz_ok (fst (s_step st op)) t
+  end.
+Definition no_set_size (op : xop) : Prop := match op with XSetSize _ => False | _ => True end.
 
 Fixpoint x_run (x : xstr) (ops : list xop) : list xobs :=
   match ops with [] => [] | op :: t => let '(x', o) := x_step x op in o :: x_run x' t end.
-Fixpoint s_run (s : list Z) (ops : list xop) : list xobs :=
+Fixpoint s_run (s : tstate) (ops : list xop) : list xobs :=
   match ops with [] => [] | op :: t => let '(s', o) := s_step s op in o :: s_run s' t end.
+Definition x_exec (x : xstr) (ops : list xop) : xstr := fold_left (fun x op => fst (x_step x op)) ops x.
+Definition xs_exec (s : tstate) (ops : list xop) : tstate := fold_left (fun s op => fst (s_step s op)) ops s.
